@@ -396,7 +396,7 @@ struct Mismatch { bool any = false; std::string group, what; double a = 0, b = 0
 static bool sameDouble(double a, double b) { return a == b || (a != a && b != b); }
 
 // returns worst ratio resid/tol over groups (0 if all bitwise equal); fills mm for the first group beyond tolerance
-static double compareObs(const Obs& A, const Obs& B, Mismatch& mm, bool& bitwise, std::vector<std::string>* undefinedGroups = nullptr) {
+static double compareObs(const Obs& A, const Obs& B, Mismatch& mm, bool& bitwise, std::vector<std::pair<std::string, Json>>* undefinedGroups = nullptr) {
     bitwise = true; double worst = 0;
     if (A.size() != B.size()) { mm.any = true; mm.group = "group-list"; mm.what = "different set of observables"; return std::numeric_limits<double>::infinity(); }
     for (size_t i = 0; i < A.size(); ++i) {
@@ -406,7 +406,7 @@ static double compareObs(const Obs& A, const Obs& B, Mismatch& mm, bool& bitwise
             // never written by the library: judged by a separate oracle with its own key, not by the stale-cache oracle
             bool same = a.v.size() == b.v.size() && a.exc == b.exc;
             for (size_t k = 0; same && k < a.v.size(); ++k) same = sameDouble(a.v[k], b.v[k]);
-            if (!same && undefinedGroups) undefinedGroups->push_back(a.name.substr(17));
+            if (!same && undefinedGroups) undefinedGroups->push_back({a.name.substr(17), Json::obj().set("history_state", jvec(a.v)).set("fresh_state", jvec(b.v))});
             continue;
         }
         if (a.exc != b.exc) { if (!mm.any) { mm.any = true; mm.group = a.name; mm.what = "exception differs: A='" + a.exc + "' B='" + b.exc + "'"; } worst = std::numeric_limits<double>::infinity(); continue; }
@@ -445,7 +445,10 @@ static State buildFresh(const Sys& S, const State& A, std::vector<int>* zOwner =
     for (size_t k = 0; k < S.m.bodies.size(); ++k) {
         const MobilizedBody& mb = S.m.bodies[k];
         Motion::Level lv = mb.getLockLevel(A);
-        if (lv != Motion::NoLevel) mb.lockAt(B, mb.getLockValueAsVector(A), lv);
+        if (lv != Motion::NoLevel) {
+            Vector val = mb.getLockValueAsVector(A);
+            if (val.size()) mb.lockAt(B, val, lv); else mb.lock(B, lv);   // zero-dof mobilizer: nothing to record (and lockAt() takes &value[0])
+        }
         else if (mb.getLockLevel(B) != Motion::NoLevel) mb.unlock(B);
     }
     // constraints
@@ -542,7 +545,7 @@ struct Runner {
             case 1: x.setFrameOnBody2(A, argFrame(o, 0)); break;
             case 2: { Vec6 k; for (int i = 0; i < 6; ++i) k[i] = std::fabs(arg(o, i)) * 10; x.setStiffness(A, k); break; }
             case 3: { Vec6 k; for (int i = 0; i < 6; ++i) k[i] = std::fabs(arg(o, i)); x.setDamping(A, k); break; }
-            case 4: x.setDissipatedEnergy(A, arg(o, 0)); break;
+            case 4: x.setDissipatedEnergy(A, std::fabs(arg(o, 0))); break;   // documented: must be nonnegative
             } break; }
         case FK_MobConst: Force::MobilityConstantForce::downcast(f).setForce(A, arg(o, 0) * 3); break;
         case FK_MobDiscrete: Force::MobilityDiscreteForce::downcast(f).setMobilityForce(A, arg(o, 0) * 3); break;
@@ -627,6 +630,7 @@ struct Runner {
         case OK_ConsEnable: if (o.c) matter.setConstraintIsDisabled(A, S.cix[o.a], o.b != 0); else if (o.b) S.C(o.a).disable(A); else S.C(o.a).enable(A); break;
         case OK_Lock: S.m.bodies[o.a % nmov].lock(A, Motion::Level(o.b)); break;
         case OK_LockAt: { const MobilizedBody& mb = S.m.bodies[o.a % nmov]; int n = (o.b == Motion::Position) ? mb.getNumQ(A) : mb.getNumU(A);
+            if (n == 0) { mb.lock(A, Motion::Level(o.b)); break; }     // lockAt() forms &value[0]: not for zero-dof mobilizers
             Vector val(n); for (int i = 0; i < n; ++i) val[i] = arg(o, i); mb.lockAt(A, val, Motion::Level(o.b)); break; }
         case OK_Unlock: S.m.bodies[o.a % nmov].unlock(A); break;
         case OK_Euler: matter.setUseEulerAngles(A, o.b != 0); keepModel(); break;
@@ -663,7 +667,7 @@ struct Runner {
         if (realizeTo(A, o.stage, e)) (void)gather(S, A, std::min(o.stage, (int)ST_Acceleration), o.lazy);
     }
     // the real comparison; returns worst ratio, fills mm
-    double compare(const Op& o, Mismatch& mm, bool& bitwise, std::vector<std::string>* undefinedGroups = nullptr) {
+    double compare(const Op& o, Mismatch& mm, bool& bitwise, std::vector<std::pair<std::string, Json>>* undefinedGroups = nullptr) {
         std::vector<int> zOwner;
         State B = buildFresh(S, A, &zOwner);
         bitwise = true;
@@ -851,13 +855,13 @@ static void checkC16(Ctx& c, long idx, Rng& r) {
         }
         if (o.mode == CM_None || lastMut < 0) { c.obs("compare-skipped-by-design"); continue; }
         c.setPhase("compare after " + opName(S, ops[lastMut]));
-        Mismatch mm; bool bitwise = true; std::vector<std::string> undef;
+        Mismatch mm; bool bitwise = true; std::vector<std::pair<std::string, Json>> undef;
         double worst = R.compare(o, mm, bitwise, &undef);
         ++nCmp;
         for (auto& t : undef) {
             c.obs("zdot-of-disabled-element-differs");
-            if (undefSeen.insert(t).second)
-                c.viol("uninitialized-zdot:disabled-" + t, Json::obj().set("system", S.toJson()).set("after", opName(S, ops[lastMut])).set("stage", stName(o.stage))
+            if (undefSeen.insert(t.first).second)
+                c.viol("uninitialized-zdot:disabled-" + t.first, Json::obj().set("zdot", t.second).set("system", S.toJson()).set("after", opName(S, ops[lastMut])).set("stage", stName(o.stage))
                        .set("what", "zdot entries owned by a disabled force element differ between the history State and a fresh State with the same values (never written by realize)"));
         }
         c.cover(opName(S, ops[lastMut]) + "/" + stName(stageBefore) + ">" + stName(o.stage));
